@@ -17,6 +17,8 @@ import EasyMl.Lemmas.ViewMapping
 import EasyMl.Lemmas.ViewInjective
 import EasyMl.Lemmas.ViewWrite
 import EasyMl.Lemmas.ViewLayout
+import EasyMl.Lemmas.ViewAccessors
+import EasyMl.Lemmas.ViewMatrixBridge
 
 namespace EasyMl.C02
 open EasyMl EasyMl.Spec EasyMl.View
@@ -181,6 +183,79 @@ theorem layout_linear_increasing (v : View ν α) (h : v.WF) (order : List ν)
       have := hs0 _ (List.getElem_mem hk3)
       omega
     rw [this]
+
+/-- **`data_layout` and `from_memory_order` never panic.**  On every well-formed view (any
+    composition) `data_layout` returns: the name lookups of `TensorRename::data_layout` and of
+    `map_linear_data_layout_to_transposed` (`position_of(..)` followed by a panic on `None`)
+    always succeed, because a claimed order only names dimensions of the view.
+    `TensorAccess::from_memory_order` returns too: `None` exactly when the layout is not
+    linear, otherwise the (well-formed) access in the claimed order — the
+    `unwrap_or_else(|| panic!(..))` around `TensorAccess::try_from` is never reached. -/
+theorem layout_never_panics (v : View ν α) (h : v.WF) :
+    (∃ l, v.layout = .ok l) ∧
+    (∃ r, v.fromMemoryOrder = .ok r) ∧
+    (∀ a, v.fromMemoryOrder = .ok (some a) →
+      a.WF ∧ ∃ order, v.layout = .ok (.linear order) ∧ mkAccess v order = some a) ∧
+    (v.fromMemoryOrder = .ok none ↔ ¬ ∃ order, v.layout = .ok (.linear order)) :=
+  ⟨View.layout_ok v h, (View.fromMemoryOrder_ok v h).1, (View.fromMemoryOrder_ok v h).2.1,
+    (View.fromMemoryOrder_ok v h).2.2⟩
+
+/-- **Accessors and mutators.**  On a well-formed view:
+    * `length_of(name)` is the length recorded for `name`, `None` exactly for a name the view
+      does not have; `last_index_of(name)` is that length minus one;
+    * `source()` / `source_ref()` / `sources()` / `sources_ref()` hand out well-formed views;
+    * `TensorRename::get_names` are the names of the shape;
+    * `TensorRename::set_names` panics exactly for a repeated name (and then — theorem
+      `constructors_establish_wf` — leaves the adaptor as it was); accepted, the view has the new
+      names, the same lengths, the same leaves and the same index mapping;
+    * after the source behind `source_ref_mut` (`TensorRename`, `TensorReverse`) was replaced, the
+      adaptor hands out and reads through the new source. -/
+theorem accessors_spec (v : View ν α) (h : v.WF) :
+    (∀ n l, View.lengthOf v.shape n = some l ↔ (n, l) ∈ v.shape) ∧
+    (∀ n, View.lengthOf v.shape n = none ↔ n ∉ namesOf v.shape) ∧
+    (∀ n k, View.lastIndexOf v.shape n = some k ↔ (n, k + 1) ∈ v.shape) ∧
+    (∀ s ∈ v.sources, s.WF) ∧
+    (∀ ns, v.getNames = some ns → namesOf v.shape = ns) ∧
+    (∀ s old dimensions, v = View.rename s old → dimensions.length = v.shape.length →
+      ((v.setNames dimensions).2 = .panic .explicit ↔ ¬ dimensions.Nodup) ∧
+      (dimensions.Nodup →
+        (v.setNames dimensions).2 = .ok () ∧
+        namesOf (v.setNames dimensions).1.shape = dimensions ∧
+        lens (v.setNames dimensions).1.shape = lens v.shape ∧
+        (v.setNames dimensions).1.leaves = v.leaves ∧
+        ∀ idx, (v.setNames dimensions).1.specGet idx = v.specGet idx)) ∧
+    (∀ s s', v.sourceOf = some s →
+      (v.replaceSource s').sourceOf = some s' ∧ (v.replaceSource s').sources = [s'] ∧
+      v.replaceSource s = v ∧ (v.replaceSource s').leaves = s'.leaves) := by
+  have hg := (View.correct v h).1
+  refine ⟨lengthOf_eq_some_iff (goodShape_iff.1 hg).1, lengthOf_eq_none_iff v.shape,
+    lastIndexOf_eq_some_iff hg, View.sources_wf v h, View.getNames_spec v h, ?_,
+    fun s s' hs => View.replaceSource_spec v s s' hs⟩
+  intro s old dimensions hv hl
+  subst hv
+  exact View.setNames_spec s old dimensions h hl
+
+/-- **Matrix-side stacks: the view model agrees with the matrix-view model.**  `TensorRefMatrix`
+    over a stack of `MatrixRange` / `MatrixReverse` adaptors over `MatrixRefTensor` of a
+    2-dimensional view is represented in Model/View.lean by constructors with the index functions
+    of a tensor range / reversal (`mkMatrixStack`).  Model/MatrixView.lean (property C12,
+    written independently from the matrix code: `MView.ofTensor`, `MView.range` with
+    `MatrixRange::from`'s clipping, `MView.reverse` with `MatrixReverse`'s empty-matrix guard and
+    `getVia`, `tensorRefMatrixWithNames`; repaired arithmetic `Arith.fixed`) composes the same
+    stack as functions `(rows, columns, try_get_reference)`.  For every source view, stack and pair
+    of names the composition there never panics, is refused (`Err`) exactly when `mkMatrixStack`
+    is, and otherwise has the same shape and the same checked-getter answer at every pair of
+    indexes (cells shown through any encoding `enc`) as the view this model builds — so the
+    theorems above about `mkMatrixStack` views are theorems about what C12's model of the matrix
+    code computes. -/
+theorem matrix_stack_agrees_with_matrix_model (s : View ν α) (hs2 : s.shape.length = 2)
+    (enc : Cell → Nat) (ops : List MatOp) (r c : ν) :
+    (mkMatrixStack s ops r c = none →
+      ∃ sh, mviewStack Fallible.Arith.fixed s enc ops r c = .ok (.error sh)) ∧
+    (∀ v, mkMatrixStack s ops r c = some v →
+      ∃ T, mviewStack Fallible.Arith.fixed s enc ops r c = .ok (.ok T) ∧ T.shape = v.shape ∧
+        ∀ i j, T.get [i, j] = omap enc (v.get [i, j])) :=
+  matrix_stack_bridge s hs2 enc ops r c
 
 /-- **The constructors establish the invariant.**  Every validation of the model
     (`Tensor::from`, `TensorRefMatrix::with_names` over a `Matrix` and over `MatrixRefTensor` of a tensor view,
